@@ -153,28 +153,20 @@ Print Assumptions C16_cmp_ev_three_way.
 
 
 (* ==== window sort from source (unit winsort) ==== *)
-(* starts_unsorted_region, ends_unsorted_region, ring_reset, ring_add, ring_check, find_destination and
-   execute_sort_plan are regenerated from src/emu/ovnisort.c statement by statement (translate/units/winsort.py
-   -> Gen/Winsort_gen.v over Tools/WinsortPre.v; the two circular loops are the primitive bounded iteration
-   for_loop around the TRANSLATED condition, step and body; find_min_clock / sort_buf / write_stream /
-   rebuild_ring / malloc / free are primitives with the meaning WinsortDefs gives them).
-   Proved (Proofs/WinsortGenProofs.v):
-   (1) C16_ring_from_source: the circular buffer ev[] / head / tail / size = n holds exactly the LAST
-       min(len, n-1) events - after len events the event with index k sits in slot k mod n (WinsortGenProofs.Rep) -
-       and ring_reset / ring_add as generated establish / preserve it;
-   (2) C16_find_destination_from_source: under that representation the generated find_destination returns a slot
-       holding the first event of the model's window (WinsortDefs.find_destination: newest entry with a strictly
-       lower clock; the ring start when the ring is not yet full), and -1 exactly when the model finds none;
-   (3) C16_sort_plan_refusal_from_source_partial: execute_sort_plan looks for min(bad0.clock, find_min_clock) = the
-       minimum clock of the region body and returns -1 before writing anything when the model's plan is PlanNoDest.
-   NOT proved (hence _partial): the success path of execute_sort_plan (sort_buf / write_stream / rebuild_ring /
-   ring_check against exec_plan_r: PlanOk / PlanDie), and the per-event body of stream_winsort, which is not
-   translated (locals by value, `while (stream_step)`).  For those, WinsortGenProofs.drive restates the body by hand
-   around the generated functions and the examples below execute whole runs against the model; C16_sorts,
-   C16_postconditions and C16_never_loses_events therefore apply to the generated code only through (1)-(3) and
-   these executions, not through a theorem. *)
+(* starts_unsorted_region, ends_unsorted_region, ring_reset, ring_add, ring_check, find_destination,
+   execute_sort_plan, the per-event body of stream_winsort AND stream_check are regenerated from src/emu/ovnisort.c statement by
+   statement (translate/units/winsort.py -> Gen/Winsort_gen.v over Tools/WinsortPre.v).  The two circular loops are
+   the primitive bounded iteration for_loop around the TRANSLATED condition, step and body; `struct sortplan sp` is
+   the one plan of the state, the char state an integer; the loop `while ((ret = stream_step(stream)) == 0)` (header
+   checked by the translator) is the fold of the translated body over the delivered events (WinsortPre.run_winsort);
+   find_min_clock / sort_buf / write_stream / rebuild_ring / malloc / free are primitives with the meaning
+   WinsortDefs gives them; an event pointer is the index of the event in the file.
+   Hypotheses of the whole-stream theorems: n >= 2 (-n 0 is not modelled, -n 1 remembers nothing), every event has a
+   positive encoded size and the file is smaller than 2^63 bytes (both hold of any decoded stream: C19). *)
 From OV Require Tools.WinsortPre Gen.Winsort_gen Proofs.WinsortGenProofs.
 
+(* (1) the circular buffer ev[] / head / tail / size = n holds exactly the last min(len, n-1) events: after len events
+   the event with index k sits in slot k mod n (Rep); ring_reset / ring_add as generated establish / preserve it *)
 Theorem C16_ring_from_source :
   (forall sx st n, (1 <= n)%nat -> WinsortPre.r_size (WinsortPre.ring st) = Z.of_nat n ->
      length (WinsortPre.r_ev (WinsortPre.ring st)) = n ->
@@ -186,35 +178,109 @@ Theorem C16_ring_from_source :
 Proof. exact WinsortGenProofs.ring_from_source. Qed.
 Print Assumptions C16_ring_from_source.
 
+(* (2) the generated find_destination is the model's: a slot holding the first event of the window (newest entry with
+   a strictly lower clock; the ring start when the ring is not yet full), -1 exactly when the model finds none *)
 Theorem C16_find_destination_from_source : forall n len sx st rd m,
   (2 <= n)%nat -> WinsortGenProofs.Rep n len (WinsortPre.ring st) -> (1 <= len)%nat -> length rd = len ->
   (forall j, (j < len)%nat -> nth j rd WinsortPre.ev0 = nth (len - 1 - j) (WinsortPre.file st) WinsortPre.ev0) ->
   exists i0, Winsort_gen.find_destination (Some tt) m sx st = WinsortPre.Done i0 st /\
     match find_destination n rd m with
-    | Some w => 0 <= i0 /\ WinsortPre.ix_ptr_ev (WinsortPre.r_ev (WinsortPre.ring st)) i0 = Some (len - w)%nat /\ (1 <= w <= len)%nat
+    | Some w => 0 <= i0 /\ WinsortPre.ix_ptr_ev (WinsortPre.r_ev (WinsortPre.ring st)) i0 = Some (len - w)%nat /\
+                (1 <= w <= len)%nat /\ i0 = Z.of_nat (len - w) mod Z.of_nat n /\
+                (w <= WinsortGenProofs.remembered n len)%nat
     | None => i0 = -1
     end.
 Proof. exact WinsortGenProofs.find_destination_gen. Qed.
 Print Assumptions C16_find_destination_from_source.
 
-Theorem C16_sort_plan_refusal_from_source_partial : forall n len sx st rd b,
-  (2 <= n)%nat -> WinsortGenProofs.Rep n len (WinsortPre.ring st) -> (1 <= len)%nat -> length rd = len ->
-  (forall j, (j < len)%nat -> nth j rd WinsortPre.ev0 = nth (len - 1 - j) (WinsortPre.file st) WinsortPre.ev0) ->
-  WinsortPre.sp_bad0 (WinsortPre.plan st) = Some b -> WinsortPre.sp_next (WinsortPre.plan st) = Some len ->
-  (b < len)%nat -> (len <= length (WinsortPre.file st))%nat ->
-  find_destination n rd (min_clock (WinsortPre.between st (Some b) (Some len))) = None ->
-  Winsort_gen.execute_sort_plan (Some tt) sx st = WinsortPre.Fail WinsortPre.E_FAIL.
-Proof. exact WinsortGenProofs.execute_sort_plan_nodest. Qed.
-Print Assumptions C16_sort_plan_refusal_from_source_partial.
+(* (3) execute_sort_plan, refusal AND success: with the region body = the k newest processed events, the generated
+   function is the model's exec_plan_r: -1 before anything is written (PlanNoDest); otherwise the window
+   [first, next) is overwritten in place by its stable sort by clock, the ring is unchanged (so still Rep: pointers
+   are event indices), and ring_check dies exactly when the model's does (PlanDie) *)
+Theorem C16_sort_plan_from_source : forall n len k sx st rd,
+  (2 <= n)%nat -> WinsortGenProofs.Rep n len (WinsortPre.ring st) -> WinsortGenProofs.Abs st len rd -> (1 <= k <= len)%nat ->
+  WinsortPre.sp_bad0 (WinsortPre.plan st) = Some (len - k)%nat -> WinsortPre.sp_next (WinsortPre.plan st) = Some len ->
+  WinsortGenProofs.sizes_ok (WinsortPre.file st) -> total_size (WinsortPre.file st) < 2 ^ 63 ->
+  match exec_plan_r n k rd with
+  | PlanNoDest => Winsort_gen.execute_sort_plan (Some tt) sx st = WinsortPre.Fail WinsortPre.E_FAIL
+  | PlanDie _ => Winsort_gen.execute_sort_plan (Some tt) sx st = WinsortPre.Fail WinsortPre.E_DIE
+  | PlanOk rd' =>
+      exists st', Winsort_gen.execute_sort_plan (Some tt) sx st = WinsortPre.Done tt st' /\
+        WinsortPre.ring st' = WinsortPre.ring st /\ WinsortPre.plan st' = WinsortPre.plan st /\
+        WinsortGenProofs.Abs st' len rd' /\
+        skipn len (WinsortPre.file st') = skipn len (WinsortPre.file st) /\
+        length (WinsortPre.file st') = length (WinsortPre.file st) /\
+        WinsortGenProofs.sizes_ok (WinsortPre.file st') /\ total_size (WinsortPre.file st') = total_size (WinsortPre.file st)
+  end.
+Proof. exact WinsortGenProofs.execute_sort_plan_gen. Qed.
+Print Assumptions C16_sort_plan_from_source.
 
-(* whole runs of the generated functions (hand-written driver for the untranslated per-event body) against the
-   model: the non-vacuity stream of this file with -n 18 and -n 17, and the stream of C16_idempotent_refuted
-   with -n 5 - the first run sorts, the second run on the sorted file fails, for the generated code too *)
+(* (4) one iteration of the loop of stream_winsort = one step of the region machine: in state S an OU[ opens (U);
+   in U an OU] closes an empty region, anything else becomes bad0 (X); in X an OU] runs the plan on the events
+   since bad0 and fails with it, anything else extends the region; every delivered event is then added to the ring.
+   Inv: ring representation, processed prefix, char state / bad0 against WS / WU / WX k *)
+Theorem C16_winsort_step_from_source : forall n st len w c,
+  (2 <= n)%nat -> WinsortGenProofs.Inv n st len w c -> (len < length (WinsortPre.file st))%nat ->
+  match wstep n w (nth len (WinsortPre.file st) WinsortPre.ev0),
+        Winsort_gen.stream_winsort_body (Some tt) (Some tt) c (Some len) st with
+  | Some w', WinsortPre.Done (WinsortPre.LCont c') st' =>
+      WinsortGenProofs.Inv n st' (S len) w' c' /\
+      skipn (S len) (WinsortPre.file st') = skipn (S len) (WinsortPre.file st) /\
+      length (WinsortPre.file st') = length (WinsortPre.file st)
+  | None, WinsortPre.Fail _ => True
+  | _, _ => False
+  end.
+Proof. exact WinsortGenProofs.body_step. Qed.
+Print Assumptions C16_winsort_step_from_source.
+
+(* whole streams: ring_reset, then the fold of the generated body over the events = WinsortDefs.winsort: same
+   success / failure, same resulting file (end of stream inside a region: nothing more is sorted, exit 0, in both) *)
+Theorem C16_winsort_from_source : forall n evs,
+  (2 <= n)%nat -> WinsortGenProofs.sizes_ok evs -> total_size evs < 2 ^ 63 ->
+  WinsortGenProofs.gen_winsort n evs = winsort n evs.
+Proof. exact WinsortGenProofs.winsort_from_source. Qed.
+Print Assumptions C16_winsort_from_source.
+
+(* hence C16_sorts, C16_postconditions and C16_never_loses_events hold of the generated code *)
+Theorem C16_generated_code_sorts : forall n evs,
+  (2 <= n)%nat -> WinsortGenProofs.sizes_ok evs -> total_size evs < 2 ^ 63 ->
+  pre n evs -> WinsortGenProofs.gen_winsort n evs = Some (ssort evs).
+Proof. exact WinsortGenProofs.gen_sorts. Qed.
+Print Assumptions C16_generated_code_sorts.
+
+Theorem C16_generated_code_postconditions : forall n evs out,
+  (2 <= n)%nat -> WinsortGenProofs.sizes_ok evs -> total_size evs < 2 ^ 63 ->
+  pre n evs -> WinsortGenProofs.gen_winsort n evs = Some out ->
+  Permutation evs out /\ sorted out /\ stable evs out /\ prefix_untouched evs out /\
+  length out = length evs /\ total_size out = total_size evs /\
+  check_mode out = true /\
+  (Forall (fun e => clk_ok e = true) evs -> loader_accepts out = true).
+Proof. exact WinsortGenProofs.gen_postconditions. Qed.
+Print Assumptions C16_generated_code_postconditions.
+
+Theorem C16_generated_code_never_loses_events : forall n evs out,
+  (2 <= n)%nat -> WinsortGenProofs.sizes_ok evs -> total_size evs < 2 ^ 63 ->
+  WinsortGenProofs.gen_winsort n evs = Some out -> Permutation evs out /\ total_size out = total_size evs.
+Proof. exact WinsortGenProofs.gen_never_loses. Qed.
+Print Assumptions C16_generated_code_never_loses_events.
+
+(* -c: stream_check regenerated the same way (the statements before the loop, the loop body, the statements after it;
+   the loop a fold over the delivered events) is check_mode; so it passes exactly on sorted streams *)
+Theorem C16_check_mode_from_source : forall evs,
+  WinsortGenProofs.gen_check evs = check_mode evs /\ (WinsortGenProofs.gen_check evs = true <-> sorted evs).
+Proof.
+  intros evs. split; [apply WinsortGenProofs.check_from_source|].
+  rewrite WinsortGenProofs.check_from_source. apply check_mode_iff.
+Qed.
+Print Assumptions C16_check_mode_from_source.
+
+(* executed: the non-vacuity stream with -n 18 / -n 17, and the stream of C16_idempotent_refuted with -n 5 - the first
+   run sorts, the second run on the sorted file fails, for the generated code too *)
 Example C16_ex_generated_runs :
-  WinsortGenProofs.drive 18 ex1 = winsort 18 ex1 /\ WinsortGenProofs.drive 18 ex1 = Some ex1_out /\
-  WinsortGenProofs.drive 17 ex1 = None /\ winsort 17 ex1 = None /\
-  WinsortGenProofs.drive 5 WinsortProofs.idem_witness = Some WinsortProofs.idem_sorted /\
-  winsort 5 WinsortProofs.idem_witness = Some WinsortProofs.idem_sorted /\
-  WinsortGenProofs.drive 5 WinsortProofs.idem_sorted = None /\ winsort 5 WinsortProofs.idem_sorted = None.
-Proof. vm_compute. repeat split; reflexivity. Qed.
+  WinsortGenProofs.gen_winsort 18 ex1 = Some ex1_out /\ WinsortGenProofs.gen_winsort 17 ex1 = None /\
+  WinsortGenProofs.gen_winsort 5 WinsortProofs.idem_witness = Some WinsortProofs.idem_sorted /\
+  WinsortGenProofs.gen_winsort 5 WinsortProofs.idem_sorted = None /\
+  Forall (fun e => 0 <? esize e = true) ex1 /\ total_size ex1 < 2 ^ 63 /\
+  WinsortGenProofs.gen_check ex1 = false /\ WinsortGenProofs.gen_check ex1_out = true.
+Proof. vm_compute. repeat split; try reflexivity; repeat constructor. Qed.
 (* ==== end of block (unit winsort) ==== *)
